@@ -19,12 +19,20 @@ INPUTS = {
     # nested keys whose class names collide with names the emitted modules import, and a literal field with 5 values
     "C": [{"fields": [{"a": 1}], "base_model": {"b": 2}, "list": {"c": "x"}, "kind": "k1"}, {"fields": [], "kind": "k2"},
           {"kind": "k3"}, {"kind": "k4"}, {"kind": "k5"}],
+    # input A again with the keys of every object in ANOTHER ORDER (same models, same indices, other field order)
+    "Ar": [{"flag": 5, "mixed": 1, "items": [{"v": "1", "id": 1}, {"w": None, "v": "2.5", "id": 2}], "user": {"tags": ["a", "b"], "name": "x", "id": 1}},
+           {"flag": "on", "mixed": "7", "items": [], "user": {"name": None, "id": 2}}, {"flag": "off", "mixed": 2, "items": [], "user": {"name": "y", "id": 3}}],
     # a child model shared by two different parents under one root: the nested layout lifts it to the common ancestor and
     # refers to it by ABSOLUTE path, i.e. generate_code runs with a non-empty AbsoluteModelRef context
+    # date / time strings, some with a time-zone abbreviation dateutil can only guess (it warns), and a clean twin
+    "T": [{"day": "2018-03-04", "at": "07:00 EST", "when": "2018-03-04T05:06:07", "n": "1"}, {"day": "2019-01-02", "at": "14:30 CET", "when": "2019-01-02T03:04:05", "n": "2"}],
+    "T2": [{"day": "2018-03-04", "at": "07:00", "when": "2018-03-04T05:06:07", "n": "1"}, {"day": "2019-01-02", "at": "14:30", "when": "2019-01-02T03:04:05", "n": "2"}],
     "E": [{"child_0": {"item": {"a": 1, "b": "x"}, "n": 1}, "child_1": {"item": {"a": 2, "b": "y"}, "m": 2.5}}],
 }
 OPTS = {"A": dict(cmp=[("percent", 0.5)], unidecode=True), "B": dict(cmp=None, unidecode=False), "C": dict(cmp=None, unidecode=True),
-        "E": dict(cmp=None, unidecode=True)}
+        "E": dict(cmp=None, unidecode=True), "Ar": dict(cmp=[("percent", 0.5)], unidecode=True),
+        "T": dict(cmp=None, unidecode=True, rn=("IntString", "FloatString", "BooleanString", "IsoDateString", "IsoTimeString", "IsoDatetimeString")),
+        "T2": dict(cmp=None, unidecode=True, rn=("IntString", "FloatString", "BooleanString", "IsoDateString", "IsoTimeString", "IsoDatetimeString"))}
 RENDERS = {"pf": dict(fw="pydantic", structure="flat"), "an": dict(fw="attrs", structure="nested", meta=True),
            "df": dict(fw="dataclasses", structure="flat", converters=True), "bn": dict(fw="base", structure="nested"),
            "d3": dict(fw="dataclasses", structure="flat", max_literals=3), "b16": dict(fw="base", structure="flat", max_literals=16),
